@@ -289,7 +289,10 @@ type pipeHist struct {
 	lines int
 }
 
-func (h *pipeHist) load(c *rawCfg) { h.cfgs = append(h.cfgs, c); h.subs = append(h.subs, "load "+c.encode()) }
+func (h *pipeHist) load(c *rawCfg) {
+	h.cfgs = append(h.cfgs, c)
+	h.subs = append(h.subs, "load "+c.encode())
+}
 func (h *pipeHist) line(l string) {
 	h.lines++
 	h.subs = append(h.subs, "line "+enc(l)+" @L@")
